@@ -128,6 +128,8 @@ pub struct World {
     peers: HashMap<String, RawPeer>,
     eps: HashMap<String, EpH>,
     changed: Arc<Notify>,
+    /// accept calls polled once and held (name -> (future, socket address))
+    held: HashMap<String, (std::pin::Pin<Box<dyn std::future::Future<Output = ()>>>, String)>,
 }
 
 /// Run the runtime to quiescence without advancing the virtual clock: on the current-thread
@@ -398,6 +400,7 @@ impl World {
             socks: HashMap::new(),
             peers: HashMap::new(),
             eps: HashMap::new(),
+            held: HashMap::new(),
             changed: Arc::new(Notify::new()),
         }
     }
@@ -671,6 +674,28 @@ impl World {
                 }
                 e.abort_r.notify_one();
                 e.abort_w.notify_one();
+            }
+            Step::AcceptHeld { sock, ep } => {
+                let sh = self.socks.get(sock).expect("unknown sock");
+                let local = sh.addr;
+                if let Some(s) = sh.sock.clone() {
+                    ev!(self.tracer, "call", "ep": ep.as_str(), "op": "accept", "sock": local.to_string(), "to": "");
+                    let mut fut: std::pin::Pin<Box<dyn std::future::Future<Output = ()>>> =
+                        Box::pin(async move { let _ = s.accept().await; });
+                    // exactly one poll: the acceptor is now queued with the dispatcher
+                    std::future::poll_fn(|cx| {
+                        let _ = fut.as_mut().poll(cx);
+                        std::task::Poll::Ready(())
+                    })
+                    .await;
+                    self.held.insert(ep.clone(), (fut, local.to_string()));
+                }
+            }
+            Step::AcceptHeldDrop { ep } => {
+                if let Some((fut, local)) = self.held.remove(ep) {
+                    drop(fut);
+                    ev!(self.tracer, "ret", "ep": ep.as_str(), "op": "accept", "res": "abandoned", "sock": local);
+                }
             }
             Step::Abandon { ep } => {
                 let e = self.eps.get_mut(ep).expect("unknown ep");
